@@ -15,8 +15,9 @@ from . import core
 
 
 def _reexec():
-    if os.environ.get("PYTHONHASHSEED") != "0" or os.environ.get("PYTHONDONTWRITEBYTECODE") != "1":
-        env = dict(os.environ, PYTHONHASHSEED="0", PYTHONDONTWRITEBYTECODE="1")
+    want = os.environ.get("VERIF_HASHSEED", "0")
+    if os.environ.get("PYTHONHASHSEED") != want or os.environ.get("PYTHONDONTWRITEBYTECODE") != "1":
+        env = dict(os.environ, PYTHONHASHSEED=want, PYTHONDONTWRITEBYTECODE="1")
         os.execve(sys.executable, [sys.executable] + sys.argv, env)
 
 
